@@ -463,6 +463,24 @@ def transmission_failures(n, seed, limit=3):
             if not np.allclose(a.subframes[0].time.values, b.subframes[0].time.values, rtol=1e-13, atol=0):
                 prob = 'propagating in two steps differs from one step'
         if prob is None and chs:
+            # an intermediate position on the way to a chopper, given in another length unit, changes nothing: frame -> (position in cm /
+            # mm / km) -> chopper equals frame -> chopper
+            c0 = min(chs, key=lambda c: c.distance.value)
+            try:
+                direct = fs[0].chop(c0)
+                for unit_ in ('cm', 'mm', 'km'):
+                    mid = fs[0].propagate_to(sc.scalar(0.4 * c0.distance.value, unit='m').to(unit=unit_))
+                    via = mid.chop(c0)
+                    if len(via.subframes) != len(direct.subframes) or any(
+                            not np.allclose(x.time.to(unit='s').values, y.time.to(unit='s').values, rtol=1e-9, atol=1e-15)
+                            or not np.allclose(x.wavelength.to(unit='angstrom').values, y.wavelength.to(unit='angstrom').values, rtol=1e-9)
+                            for x, y in zip(via.subframes, direct.subframes)):
+                        prob = (f'chopping at {c0.distance.value} m after an intermediate position given in {unit_} differs from chopping directly '
+                                f'({len(via.subframes)} vs {len(direct.subframes)} subframes)')
+                        break
+            except Exception as e:
+                prob = f'frame -> intermediate position -> chopper raised {type(e).__name__}: {e}'[:200]
+        if prob is None and chs:
             # a lookup exactly at a chopper (a monitor mounted at it, a final distance equal to the last chopper) sees the chopped frame
             for c in chs:
                 at = [f for f in out.frames if f.distance.value == c.distance.value][-1]
